@@ -690,6 +690,19 @@ def c08_corpus(seed, tier, adversarial):
                 sd = [0] * L
                 sd[pos] = val
                 ops += [{"op": "from_seed", "g": 3, "kind": kind, "seed": sd}, {"op": nat, "g": 3, "n": 2}]
+        # non-zero seeds whose bytes / words cancel under xor or under addition: a zero test that folds
+        # the seed instead of looking at every byte would remap them
+        wbk = WORDBYTES[kind]
+        cancel = [[0x2A] * L, [0xFF] * L, [1] + [0] * (L - 2) + [1], [0, 7] + [0] * (L - 4) + [7, 0],
+                  [1] + [0] * (L - 2) + [0xFF], ([0x10, 0x32, 0x54, 0x76, 0x98, 0xBA, 0xDC, 0xFE][:wbk]) * (L // wbk),
+                  ([1] + [0] * (wbk - 1)) + ([0xFF] * wbk) * (L // wbk - 1)]
+        w0 = rng.getrandbits(8 * wbk) | 1
+        neg = (-w0) & ((1 << (8 * wbk)) - 1)
+        cancel.append(list(w0.to_bytes(wbk, "little")) + list(neg.to_bytes(wbk, "little")) + [0] * (L - 2 * wbk))
+        cancel.append(list(w0.to_bytes(wbk, "little")) * 2 + [0] * (L - 2 * wbk))
+        for sd in cancel:
+            if len(sd) == L and any(sd):
+                ops += [{"op": "from_seed", "g": 3, "kind": kind, "seed": sd}, {"op": nat, "g": 3, "n": 2}]
         S.case("%s zero and almost-zero seeds" % kind, ops)
         # u64 arguments: the adversarial ones (some seed word is zero), neighbours, random
         xs = list(adversarial) + [(a + 1) & M64 for a in adversarial[:2]] + [0, 1, M64, 1 << 63] + [rng.getrandbits(64) for _ in range(4 if tier == "quick" else 40)]
